@@ -14,6 +14,7 @@ extern crate rustc_interface;
 extern crate rustc_middle;
 extern crate rustc_span;
 
+mod instances;
 mod json;
 mod mirfacts;
 mod thirfacts;
@@ -497,6 +498,7 @@ impl rustc_driver::Callbacks for Cb {
             ]));
         }
 
+        let mono = instances::dump_instances(&mut cx);
         let features: Vec<J> = CFGS.lock().unwrap().iter().map(|s| J::S(s.clone())).collect();
         let root = J::O(vec![
             ("crate", J::S(want)),
@@ -507,6 +509,7 @@ impl rustc_driver::Callbacks for Cb {
             ("adts", J::A(adts)),
             ("types", J::A(std::mem::take(&mut cx.types))),
             ("bodies", J::A(bodies)),
+            ("mono", mono),
         ]);
         let mut s = String::new();
         root.write(&mut s);
